@@ -32,13 +32,23 @@ def gen_record(rng, n=None, dt=None, scale=None, deg=0.0, proportional=None):
         ns, ew, vt = a * s, b * s, c * s
     else:
         ns, ew, vt = gen_signal(rng, n), gen_signal(rng, n), gen_signal(rng, n)
-    return dict(dt=dt, deg=float(deg), ns=(ns * scale).tolist(), ew=(ew * scale).tolist(), vt=(vt * scale).tolist())
+    rec = dict(dt=dt, deg=float(deg), ns=(ns * scale).tolist(), ew=(ew * scale).tolist(), vt=(vt * scale).tolist())
+    if proportional is None and rng.random() < 0.15:
+        # digitiser counts: integer samples handed over as an int32/int64 array (what obspy traces hold); same numbers, same result
+        k = 1000.0 / max(float(np.max(np.abs(ns))), 1e-12)
+        for c, v in (("ns", ns), ("ew", ew), ("vt", vt)):
+            rec[c] = [float(x) for x in np.round(v * k)]
+        rec["dtype"] = str(rng.choice(["int32", "int64"]))
+    return rec
 
 
 def make_srecord(r):
     import hvsrpy
-    return hvsrpy.SeismicRecording3C(hvsrpy.TimeSeries(r["ns"], r["dt"]), hvsrpy.TimeSeries(r["ew"], r["dt"]),
-                                     hvsrpy.TimeSeries(r["vt"], r["dt"]), degrees_from_north=r["deg"])
+    # the integer dtype is used only while the samples ARE integers (probes derive scaled / rotated copies of a record)
+    integral = bool(r.get("dtype")) and all(float(x).is_integer() and abs(x) < 2 ** 30 for c in ("ns", "ew", "vt") for x in r[c])
+    arr = (lambda v: np.array(v, dtype=r["dtype"])) if integral else (lambda v: v)
+    return hvsrpy.SeismicRecording3C(hvsrpy.TimeSeries(arr(r["ns"]), r["dt"]), hvsrpy.TimeSeries(arr(r["ew"]), r["dt"]),
+                                     hvsrpy.TimeSeries(arr(r["vt"]), r["dt"]), degrees_from_north=r["deg"])
 
 
 def gen_smoothing(rng, nfft, dts, op=None, nfc=None):
@@ -124,7 +134,9 @@ def make_settings(case):
     if fam == "trad":
         return hvsrpy.HvsrTraditionalProcessingSettings(method_to_combine_horizontals=case["method"], **kw)
     if fam == "saz":
-        return hvsrpy.HvsrTraditionalSingleAzimuthProcessingSettings(method_to_combine_horizontals=case.get("method", "single_azimuth"),
+        # both registered names of the method ("directional_energy" is an alias of "single_azimuth"), chosen by the case
+        name = case.get("method") or ("directional_energy" if int(round(case["azimuth"] * 1000)) % 2 else "single_azimuth")
+        return hvsrpy.HvsrTraditionalSingleAzimuthProcessingSettings(method_to_combine_horizontals=name,
                                                                      azimuth_in_degrees=case["azimuth"], **kw)
     if fam == "rot":
         return hvsrpy.HvsrTraditionalRotDppProcessingSettings(ppth_percentile_for_rotdpp_computation=case["pct"],
